@@ -55,7 +55,7 @@ PROPS = {
     ),
 }
 PROBES = {'C04': ['ghost_particles_present', 'periodic_domain', 'two_arrays_different_steppers', 'update_nnps_false', 'second_equation_set',
-                  'py_stage_hook', 'py_hook_injects_particles', 'same_stepper_class_different_parameters', 'several_steps', 'noncontiguous_times', 't0_nonzero', 'sim_schedule', 'shipped_stepper', 'history_compared']}
+                  'py_stage_hook', 'py_hook_injects_particles', 'same_stepper_class_different_parameters', 'py_hook_reads_other_array', 'h_grows_during_step', 'several_steps', 'noncontiguous_times', 't0_nonzero', 'sim_schedule', 'shipped_stepper', 'history_compared']}
 
 
 def needs_isolation(sc):
@@ -126,7 +126,7 @@ def _scenario(t, pr, sim_override=None):
     return dict(integrator=pr['integrator'], stepper=pr['stepper'], narr=pr['narr'], dim=dim, arrays=arrays, steps=steps,
                 periodic=int(pr['stepper'] in ('trace', 'trace_same') and t.bool(0.3)), sim=int(t.bool(0.4)) if sim_override is None else sim_override,
                 sched_seed=t.int(0, 1 << 30), threads=t.choice([2, 3, 4]), c=[float(t.int(1, 9)), float(t.int(1, 9))],
-                move=t.choice([0.0, 0.01, 0.03]))
+                move=t.choice([0.0, 0.01, 0.03]), grow=t.choice([1.0, 1.0, 1.3, 1.7]), peer=int(t.bool(0.6)))
 
 
 def gen(t, prop, tier):
@@ -182,9 +182,12 @@ def _make_setup(sc):
             if st == 'trace_inject':
                 steppers[name] = D.TStepInject(c=cvals[0])
             elif st == 'trace_same':
-                steppers[name] = D.TStep(c=cvals[a], move=float(sc.get('move', 0.0)) * (1 + a))
+                # the second array's py_stage1 hook reads the first array's state (already stepped in that stage)
+                steppers[name] = D.TStep(c=cvals[a], move=float(sc.get('move', 0.0)) * (1 + a), grow=float(sc.get('grow', 1.0)),
+                                         peer=float(a == 1 and bool(sc.get('peer'))))
             else:
-                steppers[name] = D.TStep(c=cvals[0], move=float(sc.get('move', 0.0))) if a == 0 else D.TStepB(c=cvals[1])
+                steppers[name] = (D.TStep(c=cvals[0], move=float(sc.get('move', 0.0)), grow=float(sc.get('grow', 1.0)))
+                                  if a == 0 else D.TStepB(c=cvals[1]))
         else:
             stepper = getattr(S, st)()
             for p in sorted(_stepper_props(stepper)):
@@ -334,6 +337,9 @@ def execute(sc, prop):
         import traceback
         violate('setup-raised', 'compiling the integrator raised %r\n%s' % (e, traceback.format_exc()[-600:]))
         return dict(violations=viol, digest=0, nontrivial=False, faults={}, probes=probes, sim=0.0, inconclusive=False)
+    from engines import integ_defs as _D
+    _D.REG.clear()
+    _D.REG.update({pa.name: pa for pa in r_arrays})
     r_log = []
     proxy = Proxy(r_arrays, r_steppers, r_evals, r_nnps, r_log)
     one_timestep = type(r_integ).one_timestep
@@ -370,6 +376,8 @@ def execute(sc, prop):
         integ.compute_accelerations = ca
         integ.update_domain = ud
         integ.set_post_stage_callback(lambda t, dt, stage: log.append(('post', t, dt, int(stage))))
+        _D.REG.clear()
+        _D.REG.update({pa.name: pa for pa in arrays})
         for (t0, dt) in steps:
             log.append(('step', t0, dt))
             integ.step(t0, dt)
@@ -391,6 +399,10 @@ def execute(sc, prop):
         probe('py_hook_injects_particles')
     if sc['stepper'] == 'trace_same':
         probe('same_stepper_class_different_parameters')
+        if sc.get('peer'):
+            probe('py_hook_reads_other_array')
+    if exact and float(sc.get('grow', 1.0)) > 1.0 and sc['stepper'] != 'trace_inject':
+        probe('h_grows_during_step')
     if not exact:
         probe('shipped_stepper')
     if len(steps) > 1:
